@@ -199,6 +199,9 @@ def check_derive(case):
           tgt.measurements[0].doc('documented later, by op %d' % k)          # the builder methods of a Measurement work in place
         elif what == 'measurement_validator' and tgt.measurements:
           tgt.measurements[0].with_validator(lambda v: True)
+        elif what == 'measurement_validate_on' and tgt.measurements:
+          # the rarely used builder: a validator that only counts once a diagnosis result exists
+          tgt.measurements[-1].validate_on({R.R0: lambda v: False})
         mutated = i
         if i in derived:
           flags['derive_then_mutate'] = True
@@ -256,7 +259,8 @@ def check_derive(case):
 
 DERIVES = ['with_args', 'with_plugs_match', 'with_plugs_nomatch', 'options', 'measures', 'diagnose', 'plug', 'wrap_or_copy', 'copy', 'load_code_info',
            'seq', 'subtest', 'branch', 'group_lists', 'group_seqobj', 'with_context', 'wrap', 'combine', 'test']
-MUTS = ['opt_timeout', 'opt_name', 'plugs', 'measurements', 'diagnosers', 'extra_kwargs', 'measurement_doc', 'measurement_validator']
+MUTS = ['opt_timeout', 'opt_name', 'plugs', 'measurements', 'diagnosers', 'extra_kwargs', 'measurement_doc', 'measurement_validator',
+        'measurement_validate_on']
 
 
 @st.composite
